@@ -1,5 +1,11 @@
 """C13 — Parameters resolved through **kwargs are exactly those the code accepts.
 
+Programs are spread over 1-3 MODULES (real files importing each other): a body is linked in the globals of the module that
+defines it (`link` of lean/Jap/Core/ResolverMod.lean; the harness reads the per-module tables off the imported modules), the same
+identifier may denote different callables in different modules, calls may be written `lib.f(**kwargs)`, module constants may have
+opposite truth values per module.  The statements of _parameter_resolvers.py that the model transcribes are regenerated into
+Gen/ResolverSites.lean (extractor resolver_sites) and pinned by the `tie_*` theorems.
+
 Pipeline: (1) build Props/C13 (theorems over the Lean model lean/Jap/Core/Resolver.lean: the
 resolver's algorithm `resolve` and, independently, Python's keyword binding `accepts`);
 (2) correspondence, both sides of the iff: generated programs (class hierarchies, call chains,
@@ -35,16 +41,23 @@ from ..lib.common import Ctx, MachineryError, repo_python_path
 MANIFEST = {
     "engine": "E9-Resolver",
     "technique": "Lean 4 proof that the resolver's algorithm equals Python's keyword-binding semantics on a mini language of the documented "
-                 "**kwargs forwarding patterns + two-sided differential correspondence (real resolver vs `resolve`, real interpreter vs `accepts`) "
-                 "on generated source files",
-    "text": "Theorems in lean/Jap/Props/C13.lean prove, for every well-formed program (any hierarchy depth, any MRO linearisation given as input), "
-            "that the names offered by the model of _parameter_resolvers.py are exactly the names the model of Python's call binding accepts, that "
-            "hard-coded arguments are not offered, that every offered parameter carries the type/default of a definition of the program and that the "
-            "fuel bound suffices; the model is tied to the code by comparing it with get_signature_parameters/add_class_arguments and with the real "
-            "interpreter on generated packages written to disk.",
+                 "**kwargs forwarding patterns, for programs spread over modules (name resolution per defining module) + two-sided differential "
+                 "correspondence (real resolver vs `resolve`, real interpreter vs `accepts`) on generated multi-module source files + the statements "
+                 "of the transcribed functions regenerated from the source and pinned by tie theorems",
+    "text": "Theorems in lean/Jap/Props/C13.lean prove, for every well-formed program (any hierarchy depth, any MRO linearisation given as input, "
+            "any number of modules with their own global tables and constants: C13_exact_modules), that the names offered by the model of "
+            "_parameter_resolvers.py are exactly the names the model of Python's call binding accepts, that hard-coded arguments are not offered, "
+            "that every offered parameter carries the type/default of a definition of the program, that the globals of a module holding no program "
+            "text are irrelevant (C13_foreign_globals_irrelevant) and that the fuel bound suffices; the model is tied to the code by comparing it with "
+            "get_signature_parameters/add_class_arguments and with the real interpreter on generated packages of 1-3 modules written to disk, and "
+            "by 31 tie_* theorems over the regenerated statements of the functions it transcribes (Gen/ResolverSites.lean).",
     "level_note": "Trusted: Lean kernel; axioms propext/Quot.sound/Classical.choice only; the generator/renderer of the mini language; the correspondence "
-                  "harness. Outside: patterns not in the grammar (*args forwarding, method overriding, two super() calls in one body, dict(p=1, **kwargs) "
-                  "entries on the attribute path, attribute use never exercised, stubs/pydantic/attrs resolvers, the assumptions fallback).",
+                  "harness (it reads the per-module global tables, like the MROs, off the imported modules). Outside the model: patterns not in the "
+                  "grammar (*args forwarding, method overriding, two super() calls in one body, dict(p=1, **kwargs) entries on the attribute path, "
+                  "attribute use never exercised, function-local imports, `import a.b` packages, identifiers rebound after import), the by-name lookup "
+                  "of X in super(X, self) when the class asked for lives in another module (open finding C13-two-arg-super-foreign-module, oracle "
+                  "only), an import inside a function body shadowed by a module global of the same identifier (open finding "
+                  "C13-local-import-shadowed-by-module-global, oracle only), stubs/pydantic/attrs resolvers, the assumptions fallback.",
 }
 
 FIND_GET = "C13-get-forward"
@@ -52,6 +65,8 @@ FIND_POPHARD = "C13-pop-hardcoded"
 FIND_NOINIT = "C13-inherited-init-positional"
 FIND_CRASH = "C13-conditional-first-crash"
 FIND_NESTED = "C13-nested-pop-takes-callee-signature"
+FIND_SUPER2 = "C13-two-arg-super-foreign-module"
+FIND_LOCALIMP = "C13-local-import-shadowed-by-module-global"
 
 NAMES = ["a", "b", "c", "d", "e", "f", "g", "h"]
 KWNAMES = ["kwargs", "kw", "options"]       # names of the ** variable; they are also parameter names of other callables
@@ -256,6 +271,187 @@ def kwname_of(c):
     return c.get("kwname", "kwargs")
 
 
+# ---------------------------------------------------------------- programs spread over modules
+def pyname(e):
+    """the identifier the entry is defined under in ITS module (entries of different modules may share one)"""
+    return e.get("pyname", e["name"])
+
+
+def mod_of(e):
+    return e.get("mod", 0)
+
+
+def n_mods(prog):
+    return 1 + max([mod_of(e) for e in prog["entries"]] or [0])
+
+
+def mod_rec(prog, m):
+    ms = prog.get("mods") or []
+    return ms[m] if m < len(ms) else {}
+
+
+def flipped(prog, m):
+    """module-level constants of module m have the opposite truth values (FLAG_T = False, ...)"""
+    return bool(mod_rec(prog, m).get("flip"))
+
+
+def style(prog, m, i):
+    """how the text of module m reaches entry i defined elsewhere:
+    'from'  `from lib import name`            'qual'  `import lib` + `lib.name(**kwargs)`
+    'alias' `from lib import name as al<i>`   'local' `from lib import name` as a statement of the calling function's body"""
+    r = mod_rec(prog, m)
+    for st in ("qual", "alias", "local"):
+        if i in (r.get(st) or []):
+            return st
+    return "from"
+
+
+def qualified(prog, m, i):
+    return style(prog, m, i) == "qual"
+
+
+def ref(prog, m, i, modnames=None):
+    """the expression by which text in module m names entry i"""
+    e = prog["entries"][i]
+    st = "from" if mod_of(e) == m else style(prog, m, i)
+    if st == "qual":
+        return "%s.%s" % (modnames[mod_of(e)] if modnames else "M%d" % mod_of(e), pyname(e))
+    if st == "alias":
+        return "al%d" % i
+    return pyname(e)
+
+
+def symref(prog, m, i):
+    """the symbol of that expression for the model (`@M<k>.name`: bound by an import statement inside the function body)"""
+    if mod_of(prog["entries"][i]) != m and style(prog, m, i) == "local":
+        return "@M%d.%s" % (mod_of(prog["entries"][i]), pyname(prog["entries"][i]))
+    return ref(prog, m, i)
+
+
+def local_imports(prog, m, c, modnames):
+    """import statements at the top of the body of a callable of module m"""
+    out = []
+    for _, i in call_refs(c):
+        e = prog["entries"][i]
+        if mod_of(e) != m and style(prog, m, i) == "local":
+            line = "from %s import %s" % (modnames[mod_of(e)] if modnames else "M%d" % mod_of(e), pyname(e))
+            if line not in out:
+                out.append(line)
+    return out
+
+
+def entry_callables(e):
+    if e["kind"] == "fn":
+        return [e["c"]]
+    return ([e["init"]] if e["init"] else []) + e["meths"] + e["cmeths"]
+
+
+def call_refs(c):
+    """entries named in the text of a callable: (how, entry)"""
+    out = []
+    for g in c["uses"] if c["varkw"] else []:
+        u = g["u"]
+        if "call" in u or "attr" in u:
+            t = fwd_part(u)["t"]
+            if t[0] == "entry":
+                out.append(("call", t[1]))
+            elif t[0] == "cmeth":
+                out.append(("cmeth", t[1]))
+    return out
+
+
+def module_refs(prog, m):
+    """entries defined elsewhere that the text of module m names: {entry: set of how ('base' | 'call' | 'cmeth')}"""
+    out = {}
+    for e in prog["entries"]:
+        if mod_of(e) != m:
+            continue
+        hows = [("base", b) for b in e.get("bases", [])]
+        for c in entry_callables(e):
+            hows += call_refs(c)
+        for how, i in hows:
+            if mod_of(prog["entries"][i]) != m:
+                out.setdefault(i, set()).add(how)
+    return out
+
+
+def namespace_ok(prog):
+    """every module binds each identifier once (own definitions, `from lib import name [as alias]`, and the names imported inside
+    function bodies: a local import never shadows a module global); base classes are not written qualified / imported locally"""
+    for m in range(n_mods(prog)):
+        names = [pyname(e) for e in prog["entries"] if mod_of(e) == m]
+        for i, hows in module_refs(prog, m).items():
+            st = style(prog, m, i)
+            if st == "qual":
+                if hows - {"call"}:
+                    return False
+            elif st == "local":
+                if hows - {"call", "cmeth"}:
+                    return False
+                names.append(pyname(prog["entries"][i]))
+            elif st == "alias":
+                names.append("al%d" % i)
+            else:
+                names.append(pyname(prog["entries"][i]))
+        if len(set(names)) != len(names):
+            return False
+    return True
+
+
+def binds(prog, m, i):
+    """module m binds the identifier of entry i to entry i (defined there, or imported with `from`)"""
+    return mod_of(prog["entries"][i]) == m or (i in module_refs(prog, m) and style(prog, m, i) == "from")
+
+
+def spread_over_modules(rng, prog, knobs):
+    """assign the entries to 1-3 modules (contiguous ranges: a module imports only from earlier ones), choose how a
+    module names what it imports, flip the constants of some modules, and let some entries take the identifier of an
+    entry of an earlier module that their own module does not import (same-named callables in different modules)"""
+    es = prog["entries"]
+    if len(es) < 2 or rng.random() >= knobs["p_multi"]:
+        return prog
+    nm = min(len(es), rng.choice([2, 2, 2, 3]))
+    cuts = sorted(rng.sample(range(1, len(es)), nm - 1))
+    for i, e in enumerate(es):
+        e["mod"] = sum(1 for c in cuts if c <= i)
+    prog["mods"] = [{"flip": rng.random() < 0.3, "qual": [], "alias": [], "local": []} for _ in range(nm)]
+    for m in range(1, nm):
+        for i, hows in sorted(module_refs(prog, m).items()):
+            r = rng.random()
+            if hows == {"call"} and r < 0.2:
+                prog["mods"][m]["qual"].append(i)
+            elif not (hows - {"call", "cmeth"}) and r < 0.4:
+                prog["mods"][m]["local"].append(i)
+            elif r > 0.85:
+                prog["mods"][m]["alias"].append(i)
+    for m in range(1, nm):
+        # identifiers that text inherited into / called from this module resolves in ANOTHER module's globals
+        inherited = set()
+        for e in es:
+            if mod_of(e) == m and e["kind"] == "cls":
+                for b in ancestors({k: x.get("bases", []) for k, x in enumerate(es)}, es.index(e))[1:]:
+                    for c in entry_callables(es[b]):
+                        inherited.update(j for _, j in call_refs(c))
+        for i, e in enumerate(es):
+            if mod_of(e) != m or rng.random() >= knobs["p_samename"]:
+                continue
+            cands = [j for j, x in enumerate(es) if mod_of(x) < m]
+            cands += [j for j in cands if j in inherited] * 4
+            rng.shuffle(cands)
+            for j in cands[:4]:
+                old = e.get("pyname")
+                e["pyname"] = pyname(es[j])
+                if namespace_ok(prog):
+                    break
+                if old is None:
+                    del e["pyname"]
+                else:
+                    e["pyname"] = old
+    if not namespace_ok(prog):
+        raise MachineryError("generator produced a module with a name bound twice")
+    return prog
+
+
 def gen_callable(rng, entries, bases_of, self_idx, where, knobs):
     kwname = rng.choice(["kwargs", "kwargs", "kwargs", "kw", "options"])
     params = gen_params(rng, avoid=(kwname,))
@@ -319,7 +515,8 @@ def valid_bases(bases_of, idx_new, bases):
 
 def gen_program(rng, knobs=None):
     """a random program of the mini language (harness form: the model JSON plus python names/values)"""
-    knobs = dict({"p_get": 0.08, "p_unused": 0.04, "p_cond": 0.10, "p_const": 0.08, "p_noinit": 0.2, "p_nested": 0.3}, **(knobs or {}))
+    knobs = dict({"p_get": 0.08, "p_unused": 0.04, "p_cond": 0.10, "p_const": 0.08, "p_noinit": 0.2, "p_nested": 0.3, "p_multi": 0.45, "p_samename": 0.35},
+                 **(knobs or {}))
     n_cls = rng.choice([1, 2, 3, 3, 4, 4, 5, 6])
     n_fn = rng.choice([0, 0, 1, 2, 3])
     kinds = ["cls"] * n_cls + ["fn"] * n_fn
@@ -352,7 +549,7 @@ def gen_program(rng, knobs=None):
             e["init"] = gen_callable(rng, entries, bases_of, idx, "init", knobs)
         if rng.random() < 0.3:
             e["cmeths"].append(gen_callable(rng, entries, bases_of, idx, "cmeth", knobs))
-    return {"entries": entries}
+    return spread_over_modules(rng, {"entries": entries}, knobs)
 
 
 # ---------------------------------------------------------------- rendering to python source
@@ -418,22 +615,23 @@ def fwd_part(u):
     return u.get("super") or u.get("call") or u.get("attr")
 
 
-def callee_expr(prog, t):
+def callee_expr(prog, t, m=0, modnames=None):
     if t[0] == "entry":
-        return prog["entries"][t[1]]["name"]
+        return ref(prog, m, t[1], modnames)
     if t[0] == "cmeth":
-        return "%s.mk%d_%d" % (prog["entries"][t[1]]["name"], t[2], t[3])
+        return "%s.mk%d_%d" % (ref(prog, m, t[1], modnames), t[2], t[3])
     raise MachineryError("no expression for target %r" % (t,))
 
 
-def render_use(u, prog, self_idx, n, kwn="kwargs"):
+def render_use(u, prog, self_idx, n, kwn="kwargs", modnames=None):
+    m = mod_of(prog["entries"][self_idx])
     if "pop" in u:
         return "v%d = %s.pop(%r, %s)" % (n, kwn, u["pop"][0], lit(u["pop"][1]))
     if "get" in u:
         return "v%d = %s.get(%r, %s)" % (n, kwn, u["get"][0], lit(u["get"][1]))
     if "super" in u:
         s = u["super"]
-        sup = "super()" if s["frm"] is None else "super(%s, self)" % prog["entries"][s["frm"]]["name"]
+        sup = "super()" if s["frm"] is None else "super(%s, self)" % ref(prog, m, s["frm"], modnames)
         return "%s.__init__(%s)" % (sup, render_args(s["k"], s["given"], s.get("nested"), kwn))
     if "attr" in u:
         # **kwargs kept in an attribute and forwarded by a method/property, which is exercised right away
@@ -443,7 +641,7 @@ def render_use(u, prog, self_idx, n, kwn="kwargs"):
     c = u["call"]
     t = c["t"]
     if t[0] in ("entry", "cmeth"):
-        return "%s(%s)" % (callee_expr(prog, t), render_args(c["k"], c["given"], c.get("nested"), kwn))
+        return "%s(%s)" % (callee_expr(prog, t, m, modnames), render_args(c["k"], c["given"], c.get("nested"), kwn))
     if t[0] == "self":
         return "self.m%d_%d(%s)" % (self_idx, t[1], render_args(c["k"], c["given"], c.get("nested"), kwn))
     return "return cls(%s)" % render_args(c["k"], c["given"], c.get("nested"), kwn)
@@ -456,30 +654,32 @@ def attr_use_of(c):
     return None
 
 
-def render_body(c, prog, self_idx, tag, ind):
+def render_body(c, prog, self_idx, tag, ind, modnames=None):
     kwn = kwname_of(c)
+    flip = flipped(prog, mod_of(prog["entries"][self_idx]))
     out = [ind + ("_T(%r, locals(), %r)" % (tag, kwn) if c["varkw"] else "_T(%r, locals())" % tag)]
+    out += [ind + l for l in local_imports(prog, mod_of(prog["entries"][self_idx]), c, modnames) if not attr_use_of(c)]
     uses = c["uses"] if c["varkw"] else []
     i, n = 0, 0
     branch_ids = sorted({g["g"]["branch"] for g in uses if isinstance(g["g"], dict) and "branch" in g["g"]})
     while i < len(uses):
         g = uses[i]
         if g["g"] == "a":
-            out.extend(ind + l for l in render_use(g["u"], prog, self_idx, n, kwn).split("\n"))
+            out.extend(ind + l for l in render_use(g["u"], prog, self_idx, n, kwn, modnames).split("\n"))
             i += 1
             n += 1
         elif "const" in g["g"]:
             live = g["g"]["const"]
             nxt = uses[i + 1] if i + 1 < len(uses) else None
             ti = g["g"].get("test", n + len(tag)) % len(LIVE_TESTS)
-            test = LIVE_TESTS[ti] if live else DEAD_TESTS[ti]
+            test = LIVE_TESTS[ti] if live != flip else DEAD_TESTS[ti]  # (the truth values of a flipped module are the opposite ones)
             out.append(ind + "if %s:" % test)
-            out.append(ind + "    " + render_use(g["u"], prog, self_idx, n, kwn))
+            out.append(ind + "    " + render_use(g["u"], prog, self_idx, n, kwn, modnames))
             n += 1
             i += 1
             if nxt is not None and isinstance(nxt["g"], dict) and nxt["g"].get("const") == (not live):
                 out.append(ind + "else:")
-                out.append(ind + "    " + render_use(nxt["u"], prog, self_idx, n, kwn))
+                out.append(ind + "    " + render_use(nxt["u"], prog, self_idx, n, kwn, modnames))
                 n += 1
                 i += 1
         else:
@@ -489,7 +689,7 @@ def render_body(c, prog, self_idx, tag, ind):
                 out.append(ind + head)
                 stm = [x for x in uses[i:] if isinstance(x["g"], dict) and x["g"].get("branch") == b]
                 for x in stm:
-                    out.append(ind + "    " + render_use(x["u"], prog, self_idx, n, kwn))
+                    out.append(ind + "    " + render_use(x["u"], prog, self_idx, n, kwn, modnames))
                     n += 1
                 if not stm:
                     out.append(ind + "    pass")
@@ -498,35 +698,54 @@ def render_body(c, prog, self_idx, tag, ind):
     return out
 
 
-def render(prog):
-    out = ["from typing import List, Optional", "", "FLAG_T = True", "FLAG_F = False", "FLAG_N = None", "FLAG_Z = 0", "FLAG_E = ''",
-           "FLAG_S = 'yes'", "FLAG_1 = 1", "_SEL = {}", "_TRACE = []", "_SENT = ['probe']", "", "",
-           "def _T(tag, loc, kwn=None):", "    kw = loc.get(kwn) if kwn else None",
-           "    _TRACE.append((tag, None if kw is None else sorted(kw), sorted(k for k, v in loc.items() if v is _SENT),",
-           "                   [] if kw is None else sorted(k for k, v in kw.items() if v is _SENT)))", "", ""]
+FLAG_LINES = ["FLAG_T = True", "FLAG_F = False", "FLAG_N = None", "FLAG_Z = 0", "FLAG_E = ''", "FLAG_S = 'yes'", "FLAG_1 = 1"]
+FLAG_LINES_FLIPPED = ["FLAG_T = False", "FLAG_F = True", "FLAG_N = 'n'", "FLAG_Z = 3", "FLAG_E = 'e'", "FLAG_S = ''", "FLAG_1 = 0"]
+
+
+def render_module(prog, m, modnames):
+    """source text of module m of the program"""
+    out = ["from typing import List, Optional"]
+    if m == 0:
+        out += ["", "_SEL = {}", "_TRACE = []", "_SENT = ['probe']", "", "",
+                "def _T(tag, loc, kwn=None):", "    kw = loc.get(kwn) if kwn else None",
+                "    _TRACE.append((tag, None if kw is None else sorted(kw), sorted(k for k, v in loc.items() if v is _SENT),",
+                "                   [] if kw is None else sorted(k for k, v in kw.items() if v is _SENT)))", "", ""]
+    else:
+        out.append("from %s import _SEL, _TRACE, _SENT, _T" % modnames[0])
+        refs = module_refs(prog, m)
+        for lib in sorted({mod_of(prog["entries"][i]) for i in refs if qualified(prog, m, i)}):
+            out.append("import %s" % modnames[lib])
+        for i in sorted(refs):
+            st = style(prog, m, i)
+            if st in ("from", "alias"):
+                out.append("from %s import %s%s" % (modnames[mod_of(prog["entries"][i])], pyname(prog["entries"][i]), " as al%d" % i if st == "alias" else ""))
+        out.append("")
+    out += (FLAG_LINES_FLIPPED if flipped(prog, m) else FLAG_LINES) + ["", ""]
     for idx, e in enumerate(prog["entries"]):
+        if mod_of(e) != m:
+            continue
         if e["kind"] == "fn":
-            out.append("def %s(%s):" % (e["name"], render_sig(e["c"], None)))
-            out.extend(render_body(e["c"], prog, idx, e["name"], "    "))
+            out.append("def %s(%s):" % (pyname(e), render_sig(e["c"], None)))
+            out.extend(render_body(e["c"], prog, idx, e["name"], "    ", modnames))
             out += ["", ""]
             continue
-        bases = ", ".join(prog["entries"][b]["name"] for b in e["bases"])
-        out.append("class %s%s:" % (e["name"], "(%s)" % bases if bases else ""))
+        bases = ", ".join(ref(prog, m, b, modnames) for b in e["bases"])
+        out.append("class %s%s:" % (pyname(e), "(%s)" % bases if bases else ""))
         empty = True
         if e["init"] is not None:
             out.append("    def __init__(%s):" % render_sig(e["init"], "self"))
-            out.extend(render_body(e["init"], prog, idx, e["name"] + ".__init__", "        "))
+            out.extend(render_body(e["init"], prog, idx, e["name"] + ".__init__", "        ", modnames))
             out.append("")
             empty = False
-        for j, m in enumerate(e["meths"]):
-            out.append("    def m%d_%d(%s):" % (idx, j, render_sig(m, "self")))
-            out.extend(render_body(m, prog, idx, "%s.m%d_%d" % (e["name"], idx, j), "        "))
+        for j, mm in enumerate(e["meths"]):
+            out.append("    def m%d_%d(%s):" % (idx, j, render_sig(mm, "self")))
+            out.extend(render_body(mm, prog, idx, "%s.m%d_%d" % (e["name"], idx, j), "        ", modnames))
             out.append("")
             empty = False
-        for j, m in enumerate(e["cmeths"]):
+        for j, mm in enumerate(e["cmeths"]):
             out.append("    @classmethod")
-            out.append("    def mk%d_%d(%s):" % (idx, j, render_sig(m, "cls")))
-            out.extend(render_body(m, prog, idx, "%s.mk%d_%d" % (e["name"], idx, j), "        "))
+            out.append("    def mk%d_%d(%s):" % (idx, j, render_sig(mm, "cls")))
+            out.extend(render_body(mm, prog, idx, "%s.mk%d_%d" % (e["name"], idx, j), "        ", modnames))
             out.append("")
             empty = False
         au = attr_use_of(e["init"])
@@ -535,13 +754,23 @@ def render(prog):
                 out.append("    @property")
             out.append("    def use%d(self):" % idx)
             out.append("        _T(%r, locals())" % ("%s.use%d" % (e["name"], idx)))
-            out.append("        return %s(%s)" % (callee_expr(prog, au["t"]), render_args(au["k"], au["given"], None, "self._kw%d" % idx)))
+            out.extend("        " + l for l in local_imports(prog, m, e["init"], modnames))
+            out.append("        return %s(%s)" % (callee_expr(prog, au["t"], m, modnames), render_args(au["k"], au["given"], None, "self._kw%d" % idx)))
             out.append("")
         if empty:
             out.append("    pass")
             out.append("")
         out.append("")
     return "\n".join(out)
+
+
+def render(prog, modnames=None):
+    """the program text, all modules (for reports and replay files; module files are called M0, M1, ... there)"""
+    nm = n_mods(prog)
+    modnames = modnames or ["M%d" % m for m in range(nm)]
+    if nm == 1:
+        return render_module(prog, 0, modnames)
+    return "\n".join("# ==================== module %s ====================\n%s" % (modnames[m], render_module(prog, m, modnames)) for m in range(nm))
 
 
 # ---------------------------------------------------------------- temp package
@@ -557,54 +786,100 @@ def pkg_dir():
     return _PKG["dir"]
 
 
+class ModSet:
+    """the imported modules of one program (module 0 owns the trace / branch-selection state, the others import it)"""
+
+    def __init__(self, base, mods):
+        self.__name__ = base
+        self.mods = mods
+        self._TRACE, self._SEL, self._SENT = mods[0]._TRACE, mods[0]._SEL, mods[0]._SENT
+
+
 def load(prog):
-    """write the program to a real module file and import it"""
+    """write the program to real module files (one per module of the program) and import them"""
     d = pkg_dir()
     _PKG["n"] += 1
-    name = "c13m_%d_%d" % (os.getpid(), _PKG["n"])
-    with open(os.path.join(d, name + ".py"), "w") as f:
-        f.write(render(prog))
+    base = "c13m_%d_%d" % (os.getpid(), _PKG["n"])
+    modnames = ["%s_%d" % (base, m) if m else base for m in range(n_mods(prog))]
+    for m, name in enumerate(modnames):
+        with open(os.path.join(d, name + ".py"), "w") as f:
+            f.write(render_module(prog, m, modnames))
     importlib.invalidate_caches()
     try:
-        return importlib.import_module(name)
+        return ModSet(base, [importlib.import_module(name) for name in modnames])
     except Exception as ex:  # noqa: BLE001
+        for name in modnames:
+            sys.modules.pop(name, None)
         raise MachineryError("generated module does not import: %r\n%s" % (ex, render(prog)))
 
 
 def unload(mod):
-    sys.modules.pop(mod.__name__, None)
-    try:
-        os.unlink(mod.__file__)
-    except OSError:
-        pass
+    for m in mod.mods:
+        sys.modules.pop(m.__name__, None)
+        try:
+            os.unlink(m.__file__)
+        except OSError:
+            pass
+
+
+def entry_obj(prog, mod, i):
+    e = prog["entries"][i]
+    return getattr(mod.mods[mod_of(e)], pyname(e))
 
 
 def real_mro(prog, mod, idx):
-    cls = getattr(mod, prog["entries"][idx]["name"])
-    by_name = {e["name"]: i for i, e in enumerate(prog["entries"])}
-    return [by_name[c.__name__] for c in cls.__mro__[1:] if c is not object]
+    cls = entry_obj(prog, mod, idx)
+    by_obj = {id(entry_obj(prog, mod, i)): i for i, e in enumerate(prog["entries"]) if e["kind"] == "cls"}
+    return [by_obj[id(c)] for c in cls.__mro__[1:] if c is not object]
+
+
+def real_globals(prog, mod, syms):
+    """per module: which identifier (as written: `name` or `M<k>.name`) is bound to which entry — read off the imported modules"""
+    by_obj = {id(entry_obj(prog, mod, i)): i for i in range(len(prog["entries"]))}
+    out = []
+    for m in range(n_mods(prog)):
+        tbl = []
+        for s, k in sorted(syms.items(), key=lambda x: x[1]):
+            obj = mod.mods[m]
+            if s.startswith("@"):  # bound by `from lib import name` executed in the function body: what the library module holds
+                s, obj = s[1:].split(".", 1)[1], mod.mods[int(s[2:].split(".")[0])]
+            for part in s.split("."):
+                obj = getattr(obj, mod.mods[int(part[1:])].__name__ if re.fullmatch(r"M\d+", part) else part, None)
+            if obj is not None and id(obj) in by_obj:
+                tbl.append([k, by_obj[id(obj)]])
+        out.append(tbl)
+    return out
 
 
 # ---------------------------------------------------------------- model JSON
-def m_callable(c, vis=None):
+def m_callable(c, vis=None, rf=None, flip=False):
     return {
         "params": [{"name": p["name"], "ty": TYPE_ATOMS[p["ty"]], "dflt": None if p["dflt"] is None else dval(p["dflt"][1]), "kind": p["kind"]}
                    for p in c["params"]],
         "varkw": c["varkw"],
         # a pop nested in an argument list is `popin` right after its call (AST-visit order); a nested get is a plain get there
-        "uses": [{"g": g["g"], "u": v} for g in c["uses"] for v in m_uses(g["u"], vis)],
+        "uses": [{"g": m_guard(g["g"], flip), "u": v} for g in c["uses"] for v in m_uses(g["u"], vis, rf)],
     }
 
 
-def m_uses(u, vis=None):
-    out = [m_use(u, vis)]
+def m_guard(g, flip):
+    """the source program says how the constant test reads in a module with the usual truth values (`link` applies the module's flip)"""
+    if isinstance(g, dict) and "const" in g:
+        return {"const": g["const"] != flip}
+    return g
+
+
+def m_uses(u, vis=None, rf=None):
+    out = [m_use(u, vis, rf)]
     if not ("pop" in u or "get" in u):
         for x in nested_of(fwd_part(u)):
             out.append({("popin" if x["kind"] == "pop" else "get"): [x["name"], dval(x["dflt"])]})
     return out
 
 
-def m_use(u, vis=None):
+def m_use(u, vis=None, rf=None):
+    """targets that the text NAMES (`["entry", s]`, `["attr", s]`, `["cmeth", s, j]`) carry the symbol of the identifier written"""
+    rf = rf or (lambda i: i)
     if "pop" in u:
         return {"pop": [u["pop"][0], dval(u["pop"][1])]}
     if "get" in u:
@@ -612,14 +887,15 @@ def m_use(u, vis=None):
     if "attr" in u:
         # the model's `Target.attrEntry`: same callee, but the call does not feed the shared `removed` set
         a = u["attr"]
-        return {"call": {"t": ["attr", a["t"][1]], "k": a["k"], "given": a["given"]}}
+        return {"call": {"t": ["attr", rf(a["t"][1])], "k": a["k"], "given": a["given"]}}
     if "call" in u and u["call"]["t"][0] == "cmeth":
         c = u["call"]
         sub, o, j = c["t"][1:]
-        return {"call": {"t": ["cmeth", sub, vis(sub).index((o, j))], "k": c["k"], "given": c["given"]}}
+        return {"call": {"t": ["cmeth", rf(sub), vis(sub).index((o, j))], "k": c["k"], "given": c["given"]}}
     if "super" in u:
         return {"super": {"frm": u["super"]["frm"], "k": u["super"]["k"], "given": u["super"]["given"]}}
-    return {"call": {"t": u["call"]["t"], "k": u["call"]["k"], "given": u["call"]["given"]}}
+    t = u["call"]["t"]
+    return {"call": {"t": ["entry", rf(t[1])] if t[0] == "entry" else t, "k": u["call"]["k"], "given": u["call"]["given"]}}
 
 
 def visible_cmeths(prog, mros, sub):
@@ -632,20 +908,32 @@ def model_supported(prog):
     return True
 
 
-def to_model(prog, mros):
-    """the model's view: a class lists every classmethod it offers, inherited ones included (the lookup is an input, like the MRO)"""
+def to_model(prog, mros, mod):
+    """the model's view (`MProg` of Core/ResolverMod.lean): the text with SYMBOLS for the callables it names, the defining module
+    of every entry, per module the global table (read off the imported modules) and its constant polarity; a class lists every
+    classmethod it offers, inherited ones included, with the class that defines each (the lookup is an input, like the MRO)"""
     def vis(sub):
         return visible_cmeths(prog, mros, sub)
 
-    es = []
+    syms = {}
+
+    def mc(c, m):
+        return m_callable(c, vis, lambda i: syms.setdefault(symref(prog, m, i), len(syms)), flipped(prog, m))
+
+    es, cm_def = [], []
     for i, e in enumerate(prog["entries"]):
+        m = mod_of(e)
         if e["kind"] == "fn":
-            es.append({"fn": m_callable(e["c"], vis)})
+            es.append({"fn": mc(e["c"], m)})
+            cm_def.append([])
         else:
-            es.append({"cls": {"init": None if e["init"] is None else m_callable(e["init"], vis), "mro": mros[i],
-                               "meths": [m_callable(m, vis) for m in e["meths"]],
-                               "cmeths": [m_callable(prog["entries"][o]["cmeths"][j], vis) for o, j in vis(i)]}})
-    return {"entries": es}
+            es.append({"cls": {"init": None if e["init"] is None else mc(e["init"], m), "mro": mros[i],
+                               "meths": [mc(x, m) for x in e["meths"]],
+                               "cmeths": [mc(prog["entries"][o]["cmeths"][j], mod_of(prog["entries"][o])) for o, j in vis(i)]}})
+            cm_def.append([o for o, _ in vis(i)])
+    tables = real_globals(prog, mod, syms)
+    return {"entries": es, "modOf": [mod_of(e) for e in prog["entries"]], "cmDef": cm_def,
+            "mods": [{"globals": tables[m], "flip": flipped(prog, m)} for m in range(n_mods(prog))]}
 
 
 def model_query(prog, mros, q):
@@ -737,8 +1025,7 @@ def dflt_tok(d):
 
 
 def target_of(prog, mod, q):
-    e = prog["entries"][q[1]]
-    obj = getattr(mod, e["name"])
+    obj = entry_obj(prog, mod, q[1])
     if q[0] == "entry":
         return obj, None
     return obj, "mk%d_%d" % (q[2], q[3])
@@ -1007,9 +1294,50 @@ def sig_noinit_positional(prog, mros, q):
     return False
 
 
+def sig_super2_foreign(prog, mros, q):
+    """a class WITHOUT own __init__ (asked, or built by a forwarding call) inherits an __init__ that forwards with
+    `super(X, self)`, and the module of that class does not bind the identifier X to the class X: the resolver looks X up
+    by name in the module of the class it was asked for (`ast_is_supported_super_call`: `inspect.getmodule(classes[idx])`)"""
+    for tag, c, i in reach(prog, mros, q):
+        if c is not None or prog["entries"][i]["init"] is not None:
+            continue
+        for k in mros[i]:
+            d = prog["entries"][k]["init"]
+            if d is not None:
+                for u in live_uses(d):
+                    if "super" in u and u["super"]["frm"] is not None and not binds(prog, mod_of(prog["entries"][i]), u["super"]["frm"]):
+                        return True
+                break
+    return False
+
+
+def sig_local_import_shadowed(prog, mros, q):
+    """a reachable callable imports its callee INSIDE its body (`from lib import f`) while its module also binds the identifier f
+    globally to another object: Python calls the imported one, `get_node_component` tries `hasattr(module, 'f')` first"""
+    by_name = {e["name"]: e for e in prog["entries"]}
+    for tag, c, _ in reach(prog, mros, q):
+        if c is None or not isinstance(tag, str):
+            continue
+        m = mod_of(by_name[tag.split(".")[0]])
+        for _, i in call_refs(c):
+            e = prog["entries"][i]
+            if mod_of(e) != m and style(prog, m, i) == "local":
+                bound = [x for x in prog["entries"] if mod_of(x) == m and pyname(x) == pyname(e)]
+                bound += [prog["entries"][j] for j in module_refs(prog, m) if j != i and style(prog, m, j) == "from" and pyname(prog["entries"][j]) == pyname(e)]
+                if bound:
+                    return True
+    return False
+
+
+def outside_model(prog, mros, q):
+    """queries whose resolution uses a by-name lookup the model does not transcribe (open findings; interpreter side and oracle only)"""
+    return sig_super2_foreign(prog, mros, q) or sig_local_import_shadowed(prog, mros, q)
+
+
 def func_of(prog, mod, tag):
-    obj = mod
-    for part in tag.split("."):
+    parts = tag.split(".")
+    obj = entry_obj(prog, mod, [e["name"] for e in prog["entries"]].index(parts[0]))
+    for part in parts[1:]:
         obj = inspect.getattr_static(obj, part) if inspect.isclass(obj) else getattr(obj, part)
     if isinstance(obj, classmethod):
         obj = obj.__func__
@@ -1088,6 +1416,10 @@ def judge(prog, mod, mros, q, names=None):
             return FIND_POPHARD
         if sig_noinit_positional(prog, mros, q):
             return FIND_NOINIT
+        if sig_super2_foreign(prog, mros, q):
+            return FIND_SUPER2
+        if sig_local_import_shadowed(prog, mros, q):
+            return FIND_LOCALIMP
         return None
 
     def classify_spurious(n):
@@ -1095,6 +1427,8 @@ def judge(prog, mod, mros, q, names=None):
             return FIND_GET
         if crashed:
             return FIND_CRASH
+        if sig_local_import_shadowed(prog, mros, q):
+            return FIND_LOCALIMP
         return None
 
     for n in names:
@@ -1147,6 +1481,8 @@ def judge(prog, mod, mros, q, names=None):
                     origins.append(og)
         if origins and not any(og["ty"] == p["ty"] and og["dflt"] == p["dflt"] for og in origins):
             f = FIND_GET if sig_get_forward(prog, mros, q, n) else (FIND_CRASH if crashed else None)
+            if f is None and sig_local_import_shadowed(prog, mros, q):
+                f = FIND_LOCALIMP
             if f is None and all(og.get("nested") for og in origins):
                 f = FIND_NESTED  # bound by a pop nested in an argument list, offered with the callee's signature of the same name
             devs.append({"kind": "type-default-differs", "name": n, "finding": f,
@@ -1299,6 +1635,32 @@ def shape_key(prog, q):
 
 def features(prog, mros):
     f = set()
+    f.add("modules-%d" % n_mods(prog))
+    if any(flipped(prog, m) for m in range(n_mods(prog))):
+        f.add("module-with-flipped-constants")
+    if any(mod_rec(prog, m).get("qual") for m in range(n_mods(prog))):
+        f.add("qualified-call lib.f(**kwargs)")
+    if any(mod_rec(prog, m).get("alias") for m in range(n_mods(prog))):
+        f.add("from lib import f as alias")
+    if any(mod_rec(prog, m).get("local") for m in range(n_mods(prog))):
+        f.add("import inside the function body")
+    pn = [pyname(e) for e in prog["entries"]]
+    if len(set(pn)) != len(pn):
+        f.add("same identifier in two modules")
+    for i, e in enumerate(prog["entries"]):
+        if e["kind"] == "cls":
+            inh = [k for k in mros[i] if mod_of(prog["entries"][k]) != mod_of(e)]
+            if inh:
+                f.add("base class in another module")
+                definer = next((k for k in [i] + mros[i] if prog["entries"][k]["init"] is not None), None)
+                if definer is not None and definer != i and mod_of(prog["entries"][definer]) != mod_of(e):
+                    f.add("inherited __init__ defined in another module")
+                    if call_refs(prog["entries"][definer]["init"]):
+                        f.add("inherited __init__ of another module forwards to a callable named there")
+                        if any(pn.count(pyname(prog["entries"][j])) > 1 for _, j in call_refs(prog["entries"][definer]["init"])):
+                            f.add("... whose identifier also exists in another module")
+                if any(mod_of(prog["entries"][o]) != mod_of(e) for o, _ in visible_cmeths(prog, mros, i)):
+                    f.add("inherited classmethod defined in another module")
     for i, e in enumerate(prog["entries"]):
         if e["kind"] == "cls":
             f.add("depth%d" % min(len(mros[i]) + 1, 6))
@@ -1343,10 +1705,10 @@ def features(prog, mros):
 
 
 def model_run(ctx, items):
-    """items: list of (prog, mros, queries, names) -> driver results (None per program the model cannot express;
+    """items: list of (prog, mros, queries, names, loaded modules) -> driver results (None per program the model cannot express;
     None altogether when the model does not build)"""
-    idxs = [k for k, (p, _, _, _) in enumerate(items) if model_supported(p)]
-    lines = [{"prog": to_model(items[k][0], items[k][1]),
+    idxs = [k for k, it in enumerate(items) if model_supported(it[0])]
+    lines = [{"prog": to_model(items[k][0], items[k][1], items[k][4]),
               "queries": [{"q": model_query(items[k][0], items[k][1], q), "names": items[k][3]} for q in items[k][2]]} for k in idxs]
     out = [None] * len(items)
     if not lines:
@@ -1367,7 +1729,9 @@ def corr_disagreements(prog, mod, mros, q, names, res, obs=None):
     """compare one query: real resolver vs model `resolve`, real interpreter vs model `accepts`"""
     out = []
     real, crashed, failed = real_resolve(prog, mod, q)
-    if (res["out"] == "crash") != crashed:
+    if outside_model(prog, mros, q):
+        pass  # `super(X, self)` found BY NAME in the module of the class asked for / local import behind a module global: interpreter side only
+    elif (res["out"] == "crash") != crashed:
         out.append({"side": "resolve", "what": "AST-resolver AttributeError fallback: real %s, model %s" % (crashed, res["out"]), "real": real, "model": res["out"]})
     elif res["out"] == "ok":
         mp = model_params(res)
@@ -1466,9 +1830,70 @@ def extension_family(thorough):
     return out
 
 
+def module_family(thorough):
+    """deterministic programs spread over two modules: a library module (a function f0, a class K1 that forwards **kwargs to
+    f0 from its __init__ / a classmethod / a method using a stored attribute / under a constant conditional) and a user module
+    (a subclass K3 with or without own __init__, optionally a DIFFERENT callable that is also called f0, a function building K3),
+    each module with either polarity of its constants"""
+    import itertools
+
+    def P(name, ty, d="REQ", kind="pk"):
+        return {"name": name, "ty": ty, "dflt": None if d == "REQ" else ["v", d], "kind": kind}
+
+    def U(u, g="a"):
+        return {"g": g, "u": u}
+
+    out = []
+    hows = ["init", "cmeth", "attr", "const", "meth"]
+    for how, sub_init, decoy, k, gv, flips, qual in itertools.product(
+            hows, ["none", "own"], [None, "fn", "cls"], [0, 1], [[], ["c"]], [(False, False), (True, False), (False, True)] if thorough else [(False, False), (False, True)],
+            [None, "qual", "local", "alias"] if thorough else [None, "local"]):
+        f0 = {"kind": "fn", "name": "f0", "mod": 0, "c": {"params": [P("a", "int", 0), P("b", "str", "x"), P("c", "float", 1.0)], "varkw": False, "uses": []}}
+        fw = {"call": {"t": ["entry", 0], "k": k, "given": gv}}
+        k1 = {"kind": "cls", "name": "K1", "mod": 0, "bases": [], "init": {"params": [P("e", "int", 1)], "varkw": True, "uses": []}, "meths": [], "cmeths": []}
+        if how == "init":
+            k1["init"]["uses"] = [U({"pop": ["z", 1]}), U(fw)]
+        elif how == "const":
+            k1["init"]["uses"] = [U(fw, {"const": True, "test": 0}), U({"pop": ["y", 2]}, {"const": False, "test": 0})]
+        elif how == "attr":
+            k1["init"]["uses"] = [U({"attr": {"t": ["entry", 0], "k": k, "given": gv, "via": "method", "how": "assign"}})]
+        elif how == "meth":
+            k1["meths"] = [{"params": [P("m", "int", 2)], "varkw": True, "uses": [U(fw)]}]
+            k1["init"]["uses"] = [U({"call": {"t": ["self", 0], "k": 0, "given": []}})]
+        else:
+            k1["init"] = {"params": [P("e", "int", 1)], "varkw": False, "uses": []}
+            k1["cmeths"] = [{"params": [P("q", "str", "q")], "varkw": True, "uses": [U(fw)]}]
+        entries = [f0, k1]
+        if decoy == "fn":
+            entries.append({"kind": "fn", "name": "f2", "pyname": "f0", "mod": 1,
+                            "c": {"params": [P("z", "int", 5), P("a", "str", "s"), P("w", "bool", True)], "varkw": False, "uses": []}})
+        elif decoy == "cls":
+            entries.append({"kind": "cls", "name": "K2", "pyname": "f0", "mod": 1, "bases": [],
+                            "init": {"params": [P("w", "bool", True), P("a", "str", "s")], "varkw": False, "uses": []}, "meths": [], "cmeths": []})
+        init = None if sub_init == "none" else {"params": [P("g", "int", 0)], "varkw": True, "uses": [U({"super": {"frm": None, "k": 0, "given": []}})]}
+        i3 = len(entries)
+        entries.append({"kind": "cls", "name": "K3", "mod": 1, "bases": [1], "init": init, "meths": [], "cmeths": []})
+        user = [U({"call": {"t": ["entry", i3], "k": 0, "given": []}})]
+        if decoy is not None and how != "cmeth":
+            user = [U({"pop": ["w", True]})] + user
+        entries.append({"kind": "fn", "name": "f4", "mod": 1, "c": {"params": [P("t", "str", "t")], "varkw": True, "uses": user}})
+        if qual:
+            # the user module also calls the library function itself: `M0.f0(**kwargs)` / imported in the body / under an alias
+            entries.append({"kind": "fn", "name": "f5", "mod": 1, "c": {"params": [P("u", "int", 3)], "varkw": True,
+                                                                        "uses": [U({"call": {"t": ["entry", 0], "k": k, "given": gv}})]}})
+        user_mod = {"flip": flips[1], "qual": [], "alias": [], "local": []}
+        if qual:
+            user_mod[qual].append(0)
+        prog = {"entries": entries, "mods": [{"flip": flips[0], "qual": []}, user_mod]}
+        if not namespace_ok(prog):
+            continue  # (an import inside the body next to a module global of the same name: not generated)
+        out.append(prog)
+    return out
+
+
 class _Tally:
     def __init__(self):
-        self.n_dis = self.n_queries = self.n_crash = self.n_uninst = self.n_parser = self.n_wf_queries = self.n_wf_progs = self.n_progs = self.n_syntactic = self.n_oracle_only = 0
+        self.n_dis = self.n_queries = self.n_crash = self.n_uninst = self.n_parser = self.n_wf_queries = self.n_wf_progs = self.n_progs = self.n_syntactic = self.n_oracle_only = self.n_outside = 0
 
 
 def process(ctx, progs, T, parser_every, is_corpus=False):
@@ -1478,7 +1903,7 @@ def process(ctx, progs, T, parser_every, is_corpus=False):
         mod, mros = prepare(prog)
         names = universe(prog)
         qs = queries_of(prog, mros)
-        items.append((prog, mros, qs, names))
+        items.append((prog, mros, qs, names, mod))
         loaded.append((prog, origin, mod, mros, qs, names))
     results = model_run(ctx, items)
     for idx, (prog, origin, mod, mros, qs, names) in enumerate(loaded):
@@ -1518,7 +1943,7 @@ def process(ctx, progs, T, parser_every, is_corpus=False):
                             m2, mr2 = prepare(p2)
                             try:
                                 ns2 = universe(p2)
-                                r2 = ctx.driver("Resolver", [{"prog": to_model(p2, mr2), "queries": [{"q": model_query(p2, mr2, q), "names": ns2}]}])
+                                r2 = ctx.driver("Resolver", [{"prog": to_model(p2, mr2, m2), "queries": [{"q": model_query(p2, mr2, q), "names": ns2}]}])
                                 return bool(corr_disagreements(p2, m2, mr2, q, ns2, r2[0]["results"][0]))
                             finally:
                                 unload(m2)
@@ -1531,7 +1956,9 @@ def process(ctx, progs, T, parser_every, is_corpus=False):
                         ctx.violation("model and code disagree (%s): %s" % (dis[0]["side"], dis[0]["what"]),
                                       {"kind": "corr", "prog": small, "q": q, "source": render(small)}, found_input=False)
             # ---- property oracle
-            in_theorem = res_p is not None and res_p["wf"] and res_p["results"][qi]["out"] == "ok"
+            in_theorem = res_p is not None and res_p["wf"] and res_p["results"][qi]["out"] == "ok" and not outside_model(prog, mros, q)
+            if outside_model(prog, mros, q):
+                T.n_outside += 1
             if in_theorem:
                 T.n_wf_queries += 1
             if in_theorem and results[idx]["noclash"]:
@@ -1594,7 +2021,8 @@ def process(ctx, progs, T, parser_every, is_corpus=False):
 
 def run(ctx: Ctx):
     repo_python_path()
-    ctx.rule = ("programs of the mini language (1-6 classes in hierarchies of depth 1-5 with single/multiple inheritance and diamonds, 0-3 functions, "
+    ctx.rule = ("programs of the mini language spread over 1-3 modules (real files; `from lib import name` or `import lib` + `lib.f(**kwargs)`; the same "
+                "identifier may be bound to different callables in different modules; module constants with either polarity) (1-6 classes in hierarchies of depth 1-5 with single/multiple inheritance and diamonds, 0-3 functions, "
                 "instance methods, classmethods (asked on every class that offers them, also by inheritance); bodies with kwargs.pop/get, super().__init__/"
                 "super(X,self), calls of functions/classes/self methods/cls/Sub.classmethod, **kwargs stored in an attribute and forwarded by a method/property, "
                 "hard-coded positional and keyword arguments, constant and non-constant conditionals; parameters with shadowing names, six annotations, "
@@ -1602,6 +2030,14 @@ def run(ctx: Ctx):
                 "`resolve`, real interpreter (one call per candidate name and branch selection) vs model `accepts`, and the property itself on the real "
                 "pair; non-trivial = query whose callable takes **kwargs and offers at least one parameter through it; distinct by program+query JSON")
     ctx.assumptions = [
+        "modules: entries are assigned to contiguous ranges (a module imports only from earlier ones); a module binds what it defines and what its "
+        "text names; per-module global tables and the defining class of every inherited classmethod are read off the imported modules (inputs of "
+        "`link`, like the MROs); an identifier that is not bound is never called (NameError programs are not generated)",
+        "`super(X, self)` is written for X = the class being defined only; a class without own __init__ that inherits such a call into a module that "
+        "does not bind X is outside the model (open finding C13-two-arg-super-foreign-module): interpreter side and oracle only",
+        "import styles per (module, imported entry): `from lib import f`, `from lib import f as al<i>`, `import lib` + `lib.f(**kwargs)` (plain calls only), "
+        "`from lib import f` as first statement of the calling body (calls and Cls.factory calls only; never next to a module global of the same "
+        "identifier — that corner is the open finding C13-local-import-shadowed-by-module-global, corpus only)",
         "the generator's renderer is the meaning of the mini language (one python statement per Use)",
         "method and classmethod names are unique per hierarchy (no overriding), at most one super() call per body and it is the last forwarding call",
         "attribute use: `self._kwN = kwargs` (or dict() + update(**kwargs)) is forwarded by ONE method/property of the same class to a function/class, "
@@ -1619,7 +2055,7 @@ def run(ctx: Ctx):
         "`unique`'s hash classes of default values are recomputed by the harness (bool/int/float by hash, str, None, JSON of lists)",
         "C13_exact carries the explicit hypothesis that group_parameters does not raise (resolveOut ≠ crash); the excluded class is the open finding C13-conditional-first-crash",
     ]
-    ctx.lean_build(extractors=[])
+    ctx.lean_build(extractors=["resolver_sites"])
 
     from ..lib import corpus as corpus_mod
 
@@ -1634,6 +2070,10 @@ def run(ctx: Ctx):
     ctx.extra["attribute_use_and_inherited_classmethod_family"] = len(ext)
     for i in range(0, len(ext), 400):
         process(ctx, [(p, "extension-family") for p in ext[i:i + 400]], T, 2)
+    mfam = module_family(ctx.thorough)
+    ctx.extra["two_module_family"] = len(mfam)
+    for i in range(0, len(mfam), 400):
+        process(ctx, [(p, "module-family") for p in mfam[i:i + 400]], T, 5)
     done = 0
     while True:
         n_random = ctx.budget(700, 9000) * (2 if ctx.search_boost > 1 else 1)  # a broken tie widens the search
@@ -1666,6 +2106,7 @@ def run(ctx: Ctx):
     ctx.extra["queries"] = T.n_queries
     ctx.extra["queries_inside_C13_exact_hypotheses"] = T.n_wf_queries
     ctx.extra["queries_inside_WfProg_and_noPopClash"] = T.n_syntactic
+    ctx.extra["queries_outside_model_by_name_lookups"] = T.n_outside
     ctx.extra["queries_where_ast_resolver_fell_back"] = T.n_crash
     ctx.extra["queries_not_instantiable"] = T.n_uninst
     ctx.extra["parser_surface_checked"] = T.n_parser
@@ -1685,7 +2126,7 @@ def replay(ctx: Ctx, body):
     obs = interp(prog, mod, q, names)
     print("accepted by the interpreter:", {n: interp_accepts(obs, n) for n in names})
     if r.get("kind") == "corr":
-        res = ctx.driver("Resolver", [{"prog": to_model(prog, mros), "queries": [{"q": model_query(prog, mros, q), "names": names}]}])[0]["results"][0]
+        res = ctx.driver("Resolver", [{"prog": to_model(prog, mros, mod), "queries": [{"q": model_query(prog, mros, q), "names": names}]}])[0]["results"][0]
         dis = corr_disagreements(prog, mod, mros, q, names, res, obs)
         print("model:", res["out"], [(p["name"], p["ty"], p["dflt"]) for p in model_params(res)], dict(zip(names, res["accepts"])))
         print("disagreements:", dis)
